@@ -50,11 +50,11 @@ Definition part_den (p : part) : idx -> Qc :=
 Definition holder_inner (ps : list part) (M : ktensor Qc) : Qc := sum_over q0 Qcplus ps (fun p => part_inner p M).
 
 (* pyttb's observed X.innerprod(M) (ip) and X.norm() (nrm; a sum tensor reports 0) against the algorithm models (observations of a
-   run on 2^k-scaled data are mapped back by the generator: ip / 4^k with the model's weights / 2^k, nrm / 2^k) *)
-Definition holder_inner_ok (tol : Qc) (is_sum : bool) (ps : list part) (M : ktensor Qc) (ip nrm : Qc) : bool :=
+   run on 2^k-scaled data are mapped back by the generator: ip / 4^k with the model's weights / 2^k, nrm / 2^k).  chk_ip = the run is one
+   in which cp_als itself calls innerprod (printing runs, maxiters = 0); the norm is called by every run (normX) *)
+Definition holder_inner_ok (tol : Qc) (is_sum chk_ip : bool) (ps : list part) (M : ktensor Qc) (ip nrm : Qc) : bool :=
   let nx := sum_over q0 Qcplus ps part_normsq in
   let nm := knormsq_code Qc q0 Qcplus Qcmult M in
-  let v := holder_inner ps M in
-  qcl tol (qmax q1 (nx + nm)) ip v &&
+  (if chk_ip then qcl tol (qmax q1 (nx + nm)) ip (holder_inner ps M) else true) &&
   (if is_sum then Qc_eq_bool nrm q0
    else qleb q0 nrm && qcl tol (qmax q1 nx) (nrm * nrm) nx).
